@@ -23,7 +23,15 @@ for d in seeded/*/; do
   [ -f "$d/patch.diff" ] || continue
   grep -q obsolete_after "$d/meta.json" && continue
   prop=$(/venv/bin/python -c "import json,sys; print(json.load(open('$d/meta.json'))['property'])")
-  run_one $d/patch.diff $prop >> $OUT.tmp
+  line=$(run_one $d/patch.diff $prop)
+  echo "$line" >> $OUT.tmp
+  /venv/bin/python - "$d/meta.json" "$line" "$TIER" <<'PY'
+import json, sys
+m = json.load(open(sys.argv[1]))
+cells = [c.strip() for c in sys.argv[2].split('|')]
+m['check_result_current'] = {'tier': sys.argv[3], 'verdict': cells[3], 'first_key': cells[4].strip('`')}
+json.dump(m, open(sys.argv[1], 'w'), indent=1)
+PY
 done
 mv $OUT.tmp $OUT
 rm -f replays/*.json
